@@ -48,6 +48,28 @@ fn main() {
                 policy::policy_trace(&mut out, &mut rng, ops);
             }
         }
+        // cache-level stepped traces
+        "cache" => {
+            let lives = arg_u64(&args, "--lives", 20) as usize;
+            let g = cache::GenOpts {
+                ops,
+                w_clear: arg_u64(&args, "--w-clear", 3),
+                w_wait: arg_u64(&args, "--w-wait", 3),
+                w_close: arg_u64(&args, "--w-close", 1),
+                w_ttl: arg_u64(&args, "--w-ttl", 30),
+                collisions: arg_u64(&args, "--collisions", 0) == 1,
+            };
+            for _ in 0..lives {
+                let cfg = cache::random_config(&mut rng);
+                cache::cache_life(&mut out, &mut rng, &cfg, &g);
+            }
+        }
+        // re-execute the actions of a recorded cache trace
+        "replay-cache" => {
+            let path = arg(&args, "--script").expect("--script file");
+            let script = std::fs::read_to_string(&path).expect("read script");
+            cache::replay_script(&mut out, &script);
+        }
         other => {
             eprintln!("unknown component {}", other);
             std::process::exit(2);
